@@ -27,6 +27,15 @@ pub fn run(cx: &mut Ctx) {
     crate::rules::c10::kind_set_agreement_pub(cx, "C08.S2");
     line_ending_in_strings(cx);
     line_break_classes(cx);
+    tab_space_comparison(cx);
+}
+
+fn tab_space_comparison(cx: &mut Ctx) {
+    let rule = "C08.T1";
+    cx.rule(rule, "how deep a line is indented is compared by direction only: compare_strict, interpreted over the 3 x 3 partition of (tabs, spaces) directions, returns the spaces' direction for equal tabs, the tabs' direction when the spaces do not point the other way, and TabError exactly in the two mixed-direction cells — so re-indenting a block with more tabs AND more spaces (or fewer of both) is accepted like any other consistent indentation");
+    cx.floor(rule, 1);
+    let Some(lx) = lr::load_lexer(cx, rule) else { return };
+    crate::rules::c04::compare_strict_partition(cx, rule, &lx);
 }
 
 fn token_payloads(cx: &mut Ctx) {
